@@ -158,9 +158,6 @@ Definition W_ex2 : world :=
   {| fetch := fun tr u => if eqs u (s "http://elsewhere/x.css") then OContent None (CText 7) else fetch W_ex tr u;
      detect := detect W_ex; decode := decode W_ex; parse := parse W_ex; enc_norm := enc_norm W_ex |}.
 
-Lemma suffix_in u tr0 tr : suffix (u :: tr0) tr -> In u tr.
-Proof. intros [p ->]. apply in_or_app. right. left. reflexivity. Qed.
-
 Example only_fetcher_called_nonvacuous :
   exists tR, rtrace (parse_string 3 W_ex u_top (Some u_top) None top_ex) = Some tR /\
              same_env W_ex W_ex2 /\ agree W_ex W_ex2 tR /\
